@@ -133,6 +133,7 @@ def observables(dic):
     """(name, class name, thunk, object) for every density / transform / composite model of the graph"""
     from torchtree.core.model import CallableModel
     from torchtree.core.parameter import TransformedParameter
+    from torchtree.distributions.joint_distribution import JointDistributionModel
 
     obs = []
     for name in sorted(dic, key=str):
@@ -140,6 +141,11 @@ def observables(dic):
         cls = type(o).__name__
         if isinstance(o, CallableModel) and cls not in EXCLUDED:
             obs.append((f"{name}()", cls, o, o))
+            if cls != "JointDistributionModel":
+                # the same density as the only component of a joint (built at evaluation time): the
+                # joint reduces it according to the sample shape the component reports
+                obs.append((f"joint[{name}]()", cls + "@joint",
+                            (lambda m: (lambda: JointDistributionModel(None, [m])()))(o), o))
             if cls == "ReparameterizedTimeTreeModel":  # the height transform itself
                 obs.append((f"{name}.node_heights", cls, (lambda m: (lambda: m.node_heights))(o), o))
             if cls in ("PiecewiseConstantCoalescentModel", "PiecewiseConstantCoalescentGridModel") \
@@ -501,7 +507,8 @@ def assign_causes(viols):
 
 def final_sig(v):
     roles = sorted(set(r for k in v["cause"] for r in v["roles"].get(k, [])) or set(v["cause"]))
-    return {"check": v["check"], "model": v["model"], "cause": "+".join(roles), "rank": v["rank"],
+    model, _, wrapped = v["model"].partition("@")
+    return {"check": v["check"], "model": model, "wrapped": wrapped, "cause": "+".join(roles), "rank": v["rank"],
             "mode": v["mode"], "graph": v["graph"], "observable": v["obs"],
             "cause_params": "+".join(v["cause"])}
 
